@@ -441,6 +441,10 @@ func namedLoop(c *core.Ctx, wm *walkModel, l e2.LoopRes) (string, bool) {
 	if w := wm.shape; w.outer == h && w.form != "recursive" {
 		return "tree descent: every back edge replaces the current node by one of its children (R03.2: the accepting child, or the non-nil result of the child scan, which only returns elements of its receiver's children); the tree is finite and acyclic (R03.1: single parent, chains end at the root; R14.1; R06.3), and the whole descent runs under one read lock (R06.6), so the depth of the current node grows strictly and is bounded by the height of the tree", true
 	}
+	// worklist over the tree
+	if why, ok := treeWorklist(wm, h, body); ok {
+		return why, true
+	}
 	// parent chain
 	if f == wm.chain {
 		for _, in := range h.Instrs {
@@ -615,3 +619,132 @@ var ruleSCC = &core.Rule{ID: "R16.1", Min: 2,
 		s.Check(len(sccs) >= 2, "recursive components found", "-", fmt.Sprint(len(sccs)), "fewer recursive components than the walk and the scanner")
 		_ = types.Typ
 	}}
+
+// treeWorklist recognises `for len(pending) > 0 { n := pop(pending); ...; pending = append(pending, children of n...) }`:
+// the loop-carried slice of tree nodes loses its last element in every iteration and only gains children of the
+// node just taken. With a finite acyclic tree (R03.1, R14.1, R06.3) every node added is strictly deeper than the
+// one removed, so the multiset of depths of the pending nodes decreases in the multiset order.
+func treeWorklist(wm *walkModel, h *ssa.BasicBlock, body map[*ssa.BasicBlock]bool) (string, bool) {
+	iff := core.IfOf(h)
+	if iff == nil {
+		return "", false
+	}
+	bo, ok := iff.Cond.(*ssa.BinOp)
+	if !ok || !core.IsConstInt(bo.Y, 0) || (bo.Op != token.GTR && bo.Op != token.NEQ) || !body[h.Succs[0]] || body[h.Succs[1]] {
+		return "", false
+	}
+	ln, ok := bo.X.(*ssa.Call)
+	if !ok || !core.IsBuiltin(&ln.Call, "len") {
+		return "", false
+	}
+	P, ok := ln.Call.Args[0].(*ssa.Phi)
+	if !ok || P.Block() != h {
+		return "", false
+	}
+	sl, ok := P.Type().Underlying().(*types.Slice)
+	if !ok {
+		return "", false
+	}
+	if pt, ok := sl.Elem().(*types.Pointer); !ok || !types.Identical(pt.Elem(), wm.tm.Type) {
+		return "", false
+	}
+	isLast := func(v ssa.Value) bool {
+		sub, ok := v.(*ssa.BinOp)
+		if !ok || sub.Op != token.SUB || !core.IsConstInt(sub.Y, 1) {
+			return false
+		}
+		l2, ok := sub.X.(*ssa.Call)
+		return ok && core.IsBuiltin(&l2.Call, "len") && l2.Call.Args[0] == ssa.Value(P)
+	}
+	// the pop: one re-slice P[:len(P)-1] and the node read at that position
+	var rest *ssa.Slice
+	var node ssa.Value
+	for blk := range body {
+		for _, in := range blk.Instrs {
+			switch x := in.(type) {
+			case *ssa.Slice:
+				if x.X == ssa.Value(P) {
+					if rest != nil || x.Low != nil || x.High == nil || !isLast(x.High) {
+						return "", false
+					}
+					rest = x
+				}
+			case *ssa.UnOp:
+				if ia, ok := x.X.(*ssa.IndexAddr); ok && x.Op == token.MUL && ia.X == ssa.Value(P) {
+					if node != nil || !isLast(ia.Index) {
+						return "", false
+					}
+					node = x
+				}
+			}
+		}
+	}
+	if rest == nil || node == nil {
+		return "", false
+	}
+	isChild := func(v ssa.Value) bool {
+		u, ok := v.(*ssa.UnOp)
+		if !ok || u.Op != token.MUL {
+			return false
+		}
+		ia, ok := u.X.(*ssa.IndexAddr)
+		if !ok {
+			return false
+		}
+		base, fld, ok := core.LoadOfField(ia.X)
+		return ok && fld == wm.tm.FChildren && base == node
+	}
+	// everything carried back into P derives from the popped rest by appending children of the popped node
+	seen := map[ssa.Value]bool{}
+	var derived func(v ssa.Value) bool
+	derived = func(v ssa.Value) bool {
+		if v == ssa.Value(rest) {
+			return true
+		}
+		if seen[v] {
+			return true
+		}
+		seen[v] = true
+		switch x := v.(type) {
+		case *ssa.Phi:
+			if x.Block() == h {
+				return false
+			}
+			for _, e := range x.Edges {
+				if !derived(e) {
+					return false
+				}
+			}
+			return true
+		case *ssa.Call:
+			if !core.IsBuiltin(&x.Call, "append") || !derived(x.Call.Args[0]) {
+				return false
+			}
+			one, ok := x.Call.Args[1].(*ssa.Slice)
+			if !ok {
+				return false
+			}
+			arr, ok := one.X.(*ssa.Alloc)
+			if !ok {
+				return false
+			}
+			for _, ref := range *arr.Referrers() {
+				if ia, ok := ref.(*ssa.IndexAddr); ok {
+					for _, r2 := range *ia.Referrers() {
+						if st, ok := r2.(*ssa.Store); ok && !isChild(st.Val) {
+							return false
+						}
+					}
+				}
+			}
+			return true
+		}
+		return false
+	}
+	for k, p := range h.Preds {
+		if h.Dominates(p) && !derived(P.Edges[k]) {
+			return "", false
+		}
+	}
+	return "worklist over the tree: every iteration removes the last pending node and adds only children of that node; the tree is finite and acyclic (R03.1: single parent, chains end at the root; R14.1; R06.3), so the pending nodes get strictly deeper and the loop ends (inner loops are judged on their own)", true
+}
